@@ -510,6 +510,7 @@ def run(ctx):
     ok = upd is not None and tst is not None and tst < upd
     ctx.ob('C12.k', f'{ac_.qual}._control_keys_:test-before-record', ok, '' if ok else 'the measured-keys set already contains the keys of the operation whose controls are being '
            'tested: a sub-circuit that reads key a from outside and then measures a itself reports no external control', ac_.mod.rel, ck.lineno)
+    _scope_and_map_rules(ctx, repo)
 
 
 def _is_carrying(v, ci, builders, params, assigned, depth=0):
@@ -537,3 +538,123 @@ def _is_carrying(v, ci, builders, params, assigned, depth=0):
                 return True, ''
             return (not miss, f'constructs a CircuitOperation without {miss}')
     return False, 'is not built from self via replace()'
+
+
+def _scope_and_map_rules(ctx, repo):
+    """C12.l / C12.m - interpretation of the two small functions that decide (l) which measurement a control key binds to and (m) how qubit maps compose."""
+    import itertools
+    from .. import fdx
+    ctx.decided += [
+        'C12.l Condition._with_rescoped_keys_ binds each control key to the innermost enclosing scope that measures it (interpreted over all subsets of bindable scopes, depth <= 3)',
+        'C12.m CircuitOperation.with_qubit_mapping composes the given map with the stored one: result == {q: new(old(q)) if that differs from q} for every pair of model maps on 3 qubits',
+    ]
+    # ------------------------------------------------------------------ C12.l
+    ctx.rule('C12.l', 'innermost binding: interpreting Condition._with_rescoped_keys_ with path (r, s, t) and every subset of {m, r:m, r:s:m, r:s:t:m} as the bindable keys, the key m is '
+             'replaced by the bindable key with the longest path prefix, and left alone when none is bindable', floor=16, style='FDX')
+    cfn = repo.method('cirq.value.condition.Condition', '_with_rescoped_keys_')
+    params = [a.arg for a in cfn.args.args]
+    if len(params) != 3:
+        raise AnalysisError('Condition._with_rescoped_keys_: signature changed')
+    P_PATH, P_BIND = params[1], params[2]
+
+    class Key:
+        def __init__(self, path, name='m'):
+            self.path, self.name = tuple(path), name
+
+        def __eq__(self, o):
+            return isinstance(o, Key) and (self.path, self.name) == (o.path, o.name)
+
+        def __hash__(self):
+            return hash((self.path, self.name))
+
+        def with_key_path_prefix(self, *pfx):
+            return Key(tuple(pfx) + self.path, self.name)
+
+    class Cond:
+        def __init__(self, keys):
+            self.keys = tuple(keys)
+
+        def replace_key(self, old, new):
+            return Cond(tuple(new if k == old else k for k in self.keys))
+    def model_attr(*classes):
+        def hook(node, it):
+            try:
+                v = it.ev(node.value)
+            except fdx.Unsupported:
+                return NotImplemented
+            if isinstance(v, classes) and hasattr(v, node.attr):
+                return getattr(v, node.attr)
+            return NotImplemented
+        return hook
+    full = ('r', 's', 't')
+    for depth in (1, 2, 3):
+        path = full[:depth]
+        scopes = [path[:j] for j in range(depth + 1)]
+        for r in range(len(scopes) + 1):
+            for sub in itertools.combinations(scopes, r):
+                bind = frozenset(Key(p) for p in sub)
+                it = fdx.NumInterp({params[0]: Cond([Key(())]), P_PATH: path, P_BIND: bind}, attr_hook=model_attr(Key, Cond))
+                it.builtins.update({'len': len, 'range': range, 'tuple': tuple})
+                try:
+                    res = it.call(cfn)
+                except (fdx.Unsupported, fdx.Raised) as ex:
+                    raise AnalysisError(f'Condition._with_rescoped_keys_ not interpretable: {ex}')
+                want = Key(max(sub, key=len)) if sub else Key(())
+                got = res.keys[0] if isinstance(res, Cond) else None
+                ok = got == want
+                ctx.ob('C12.l', f'cirq.value.condition.Condition._with_rescoped_keys_:path={":".join(path)}:bindable={sorted(":".join(p) for p in sub)}', ok, '' if ok else
+                       f'inside scope {":".join(path)} with measurements of m in scopes {[":".join(p) or "<top>" for p in sub]}, the control key binds to '
+                       f'{":".join(got.path + (got.name,)) if got else got!r} instead of the nearest enclosing one {":".join(want.path + (want.name,))}', 'cirq-core/cirq/value/condition.py', cfn.lineno)
+
+    # ------------------------------------------------------------------ C12.m
+    ctx.rule('C12.m', 'map composition: interpreting CircuitOperation.with_qubit_mapping on a model operation over qubits a,b,c with every stored map and every new map drawn from a family of '
+             '7 maps (identity, moves, swaps, cycle, move-to-fresh), the qubit_map handed to replace() is exactly {q: new(old(q))} restricted to the qubits it moves', floor=40, style='FDX')
+    co = repo.cls('cirq.circuits.circuit_operation.CircuitOperation')
+    wfn = repo.method(co.qual, 'with_qubit_mapping')
+    wp = [a.arg for a in wfn.args.args]
+
+    class Q:
+        def __init__(self, n):
+            self.n, self.dimension = n, 2
+
+        def __repr__(self):
+            return self.n
+    a, b, c, d = Q('a'), Q('b'), Q('c'), Q('d')
+    fam = [{}, {a: b, b: a}, {a: d}, {d: a}, {a: b, b: c, c: a}, {b: c, c: b}, {a: a}]
+
+    class Circ:
+        def all_qubits(self):
+            return frozenset([a, b, c])
+
+    class Op:
+        def __init__(self, qmap):
+            self.qubit_map = dict(qmap)
+            self.circuit = Circ()
+
+        @property
+        def qubits(self):
+            return tuple(self.qubit_map.get(q, q) for q in (a, b, c))
+
+        def replace(self, **kw):
+            return Op(kw['qubit_map'])
+    for i, old in enumerate(fam):
+        if len({old.get(q, q) for q in (a, b, c)}) != 3:
+            continue
+        for j, new in enumerate(fam):
+            want = {q: new.get(old.get(q, q), old.get(q, q)) for q in (a, b, c)}
+            want = {q: v for q, v in want.items() if v is not q}
+            if len({want.get(q, q) for q in (a, b, c)}) != 3:
+                continue  # collision: the function raises, nothing to compare
+            it = fdx.NumInterp({wp[0]: Op(old), wp[1]: new}, attr_hook=model_attr(Op, Q, Circ))
+            it.builtins.update({'len': len, 'set': set, 'callable': callable, 'dict': dict, 'isinstance': isinstance})
+            try:
+                res = it.call(wfn)
+            except fdx.Unsupported as ex:
+                raise AnalysisError(f'CircuitOperation.with_qubit_mapping not interpretable: {ex}')
+            except fdx.Raised as ex:
+                res = f'raises: {str(ex)[:60]}'
+            got = res.qubit_map if isinstance(res, Op) else res
+            ok = got == want
+            ctx.ob('C12.m', f'{co.qual}.with_qubit_mapping:old#{i}:new#{j}', ok, '' if ok else
+                   f'stored map {old} followed by {new} must give {want}; the operation is rebuilt with {got} (remapping twice is not the same as remapping once with the composition)',
+                   co.mod.rel, wfn.lineno)
